@@ -921,7 +921,8 @@ def _shrink_args(op, a):
 def plan(prop, tier):
     if tier == 'quick':
         return {'runs': 30000 if prop == 'C17' else 12000}
-    return {'runs': 1500000 if prop == 'C17' else 600000}
+    return {'runs': 400000 if prop == 'C17' else 200000,
+            'wall_cap': 6 * 3600, 'opt_runs': 20000}
 
 
 RULE = {
